@@ -82,6 +82,7 @@ def make_order(name, tree, rng):
 
 
 IMPLS = ("default", "cotengra", "autoray", "recorder")
+ROUTES = ("contract", "contract", "contract_core", "get_contractor", "get_contractor_call_opts", "make_contractor")
 
 SORTS = (
     None,
@@ -99,6 +100,9 @@ def random_opts(rng):
         "prefer_einsum": rng.random() < 0.35,
         "impl": rng.choice(IMPLS),
         "sort": rng.choice(SORTS),
+        # how the compiled programme is reached, and the (value-neutral) progress bar
+        "route": rng.choice(ROUTES),
+        "progbar": rng.random() < 0.15,
     }
 
 
@@ -148,7 +152,30 @@ def contract_with(tree, arrays, opts, rng, recorder=None):
     elif impl == "recorder":
         recorder = recorder or Recorder(keep_arrays=False)
         kw["implementation"] = recorder.pair()
-    return tree.contract(arrays, **kw)
+    if opts.get("progbar"):
+        kw["progbar"] = True
+    route = opts.get("route", "contract")
+    if tree.sliced_inds and route != "contract":
+        route = "contract"  # the other entry points contract ONE slice; slicing belongs to C06
+    import contextlib
+    import io
+
+    with contextlib.redirect_stderr(io.StringIO()) if kw.get("progbar") else contextlib.nullcontext():
+        if route == "contract":
+            return tree.contract(arrays, **kw)
+        if route == "contract_core":
+            return tree.contract_core(arrays, **kw)
+        if route == "get_contractor":
+            return tree.get_contractor(**kw)(*arrays)
+        if route == "get_contractor_call_opts":
+            # options given at call time override the compiled defaults
+            call_kw = {k: kw.pop(k) for k in ("progbar", "implementation") if k in kw}
+            return tree.get_contractor(**kw)(*arrays, **call_kw)
+        if route == "make_contractor":
+            from cotengra.contract import make_contractor
+
+            return make_contractor(tree, **kw)(*arrays)
+    raise ValueError(route)
 
 
 def apply_sort(tree, sort):
